@@ -282,9 +282,9 @@ func workerMain() {
 	if err := syscall.Setrlimit(syscall.RLIMIT_AS, lim); err != nil {
 		fmt.Fprintln(os.Stderr, "worker: setrlimit:", err)
 	}
-	// unbounded recursion ends in Go's fatal "stack overflow" (not recoverable); a smaller maximum
-	// than the default 1 GB only makes that happen sooner
-	debug.SetMaxStack(256 << 20)
+	// unbounded recursion ends in Go's fatal "stack overflow" (not recoverable); the default
+	// maximum is kept so that the depth at which it happens is the one a host sees
+	debug.SetMaxStack(1000000000) // Go's own default on 64-bit systems: a host would crash at the same depth
 
 	w := newWorkerState()
 	in := bufio.NewReaderSize(os.Stdin, 1<<20)
